@@ -13,6 +13,10 @@ pub fn run(args: &Args) -> i32 {
     let thorough = args.thorough();
     run_cases(args, 0xC05, |case| {
         let mut rng = case.rng.fork();
+        if rng.chance(1, 5) {
+            crate::c05p::run_case(case, &mut rng);
+            return;
+        }
         let opts = AnimOpts { multi_group: thorough && rng.chance(1, 6), max_dim: if thorough { 300 } else { 48 }, ..Default::default() };
         let mut img = None;
         for _ in 0..20 {
